@@ -80,6 +80,8 @@ type c05Cast struct {
 	// foreignResponder: a responder certificate (OCSPSigning) of an unrelated CA, configured as trusted responder
 	// certificate: it may answer for that CA's certificates, not for this issuer's
 	foreignResponder *world.Ident
+	// aiaStranger: self-made CA-like certificate with the issuer's name and the key identifier the odd client's AKI names
+	aiaStranger *world.Ident
 }
 
 func newC05Cast() *c05Cast {
@@ -121,8 +123,19 @@ func newC05Cast() *c05Cast {
 		}
 		c.leafLike[n] = l
 	}
+	noSKI := world.Issue(c.issuer, world.CertOpt{CN: "c05 client without ski", Serial: big.NewInt(4280), KeyKind: "rsa", KeyIdx: 7, OCSP: []string{ocspURL}, NoSKI: true})
+	if len(noSKI.Cert.SubjectKeyId) != 0 {
+		panic("c05 cast: SKI still present")
+	}
+	c.leafLike["client-own-bare-client-without-subject-key-identifier"] = noSKI
+	oddKeyID := []byte{0xaa, 0xbb, 0xcc, 0xdd, 1, 2, 3, 4, 5, 6, 7, 8, 9, 10, 11, 12, 13, 14, 15, 16}
+	c.aiaStranger = world.Issue(nil, world.CertOpt{CN: "aia stranger", RawSubject: c.issuer.Cert.RawSubject, IsCA: true, KeyKind: "rsa", KeyIdx: 4, Serial: big.NewInt(60), SKI: oddKeyID})
+	c.leafLike["stranger-served-at-the-caIssuers-address"] = world.Issue(c.issuer, world.CertOpt{CN: "c05 client with caIssuers", Serial: big.NewInt(4281), KeyKind: "rsa", KeyIdx: 1, OCSP: []string{ocspURL},
+		IssuerURL: []string{c05IssuerURL}, ExtraExt: []pkix.Extension{world.AKIExt(oddKeyID, nil, nil)}})
 	return c
 }
+
+const c05IssuerURL = "http://ca.test/issuing-ca.cer"
 
 type c05Case struct {
 	Signer      string // issuer | delegated-eku | delegated-no-eku | client-own | stranger-embedded | stranger-bare | sibling-ca | issuer-embedded
@@ -152,7 +165,12 @@ var c05Signers = []string{"issuer", "delegated-eku", "delegated-no-eku", "client
 	"delegated-eku-any", "delegated-eku-clientauth", "client-own-eku-any", "stranger-embedded-ocspsigning", "sibling-delegated-eku",
 	"client-own-named-like-issuer-case", "client-own-named-like-issuer-blank", "client-own-named-like-issuer-order",
 	"configured-trusted-responder-of-another-CA-bare", "configured-trusted-responder-of-another-CA-embedded",
-	"rekeyed-CA-configured-as-trusted-responder-client-AKI-names-neither-key", "issuer-embedded-client-AKI-names-neither-key-rekeyed-CA-trusted"}
+	"rekeyed-CA-configured-as-trusted-responder-client-AKI-names-neither-key", "issuer-embedded-client-AKI-names-neither-key-rekeyed-CA-trusted",
+	// the client certificate carries no subject key identifier and answers about itself, its certificate not sent along
+	"client-own-bare-client-without-subject-key-identifier",
+	// the client certificate's authority key identifier names no certificate at hand; its caIssuers address serves a
+	// self-made certificate carrying exactly that key identifier and the issuer's name, which signs the answer
+	"stranger-served-at-the-caIssuers-address"}
 
 // leafFor: the certificate whose status is asked (a special leaf for the case where the client answers about itself)
 func (k *c05Cast) leafFor(c c05Case) *world.Ident {
@@ -208,6 +226,10 @@ func (k *c05Cast) build(c c05Case) (body []byte, authentic bool) {
 		a.Signer, a.EmbedCert = k.foreignResponder, true
 	case "sibling-delegated-eku":
 		a.Signer, a.EmbedCert = k.siblingDeleg, true
+	case "client-own-bare-client-without-subject-key-identifier":
+		a.Signer, a.Issuer = k.leafLike[c.Signer], k.issuer
+	case "stranger-served-at-the-caIssuers-address":
+		a.Signer = k.aiaStranger
 	case "rekeyed-CA-configured-as-trusted-responder-client-AKI-names-neither-key":
 		// the client certificate's authority key identifier names a key which no certificate at hand carries; a
 		// certificate with the issuer's name and ANOTHER key (the re-keyed CA of a former generation) is configured as
@@ -263,6 +285,7 @@ func (k *c05Cast) run(c c05Case) (used, cached bool, v1, v2 Verdict, authentic b
 			}
 		}
 		w.Net.Serve(ocspURL, "scripted", body)
+		w.Net.Serve(c05IssuerURL, "caIssuers", k.aiaStranger.Cert.Raw)
 		leaf := k.leafFor(c)
 		chain := world.Chain(leaf, k.issuer, k.p.Root)
 		v1 = w.Lookup(leaf, chain)
